@@ -102,11 +102,16 @@ pub fn expand_backslash_escapes(
             '\"' if matches!(mode, EscapeExpansionMode::AnsiCQuotes) => result.push(b'\"'),
             '?' if matches!(mode, EscapeExpansionMode::AnsiCQuotes) => result.push(b'?'),
             '0' => {
-                // Consume 0-3 valid octal chars
+                // Consume 0-3 valid octal chars after the zero (echo's `\0nnn`); in ANSI-C
+                // quotes the zero is itself the first of at most three digits (`\nnn`).
+                let max_more = match mode {
+                    EscapeExpansionMode::EchoBuiltin => 3,
+                    EscapeExpansionMode::AnsiCQuotes => 2,
+                };
                 let mut taken_so_far = 0;
                 let mut octal_chars: String = it
                     .take_while_ref(|c| {
-                        if taken_so_far < 3 && matches!(*c, '0'..='7') {
+                        if taken_so_far < max_more && matches!(*c, '0'..='7') {
                             taken_so_far += 1;
                             true
                         } else {
